@@ -209,7 +209,8 @@ fn eval_raisert(game: Game, lines: &[(i64, String)], sigs: &[(u16, String)], des
     let a: Vec<_> = instrs.iter().map(key).collect();
     let b: Vec<_> = new.iter().map(key).collect();
     if a == b { return Sexp::app("pass", vec![Sexp::int(a.len() as i64)]); }
-    // classify the difference: every differing field is attributed to one cause
+    // classify the difference: every differing field is attributed to one cause (the two specific signatures are
+    // those of findings fixed by b717bca: if they come back they are reported under their old names)
     let (mut nan, mut zero, mut cmp_mask, mut other) = (false, false, false, false);
     if a.len() != b.len() { other = true; }
     else {
@@ -472,8 +473,16 @@ fn fixed_cases() -> Vec<Case> {
     add(Game::Th06, &[], "(ins 0 1001 1 1) (ins 0 1001 2 2) (ins 0 1001 4 3) (ins 0 1001 8 4) (jmp 0 2 255 2)", "lean-example-label-between", true);
     add(Game::Th06, &[], "(ins 0 1001 5 1) (ins 0 1001 2 2) (ins 0 1001 8 3)", "lean-example-non-contiguous", true);
     add(Game::Th06, &[], "(ins 0 1001 2 1) (ins 0 1001 4 2) (ins 0 1001 8 3) (ins 0 1001 16 4)", "lean-example-not-from-zero", true);
-    add(Game::Th06, &[], "(ins 0 1006 1 1 0) (ins 0 1006 2 2 -2147483648) (ins 0 1006 4 3 0) (ins 0 1006 8 4 -2147483648)", "witness-signed-zero", true);
-    add(Game::Th06, &[], "(cmp 0 27 1 1 10 0) (cmp 0 27 2 2 10 0) (cmp 0 27 4 3 10 0) (cmp 0 27 8 4 10 0)", "witness-unraisable", true);
+    // inputs of the two former findings (fixed by b717bca): regression cases, they must round-trip
+    // (Lean: signed_zero_ladder_roundtrips, unraisable_ladder_roundtrips)
+    add(Game::Th06, &[], "(ins 0 1006 1 1 0) (ins 0 1006 2 2 -2147483648) (ins 0 1006 4 3 0) (ins 0 1006 8 4 -2147483648)", "regression-signed-zero", true);
+    add(Game::Th06, &[], "(ins 0 1004 1 0) (ins 0 1004 2 -2147483648) (ins 0 1004 4 0) (ins 0 1004 8 -2147483648)", "regression-signed-zero-only-column", true);
+    add(Game::Th07, &[], "(set 0 5 1 10004 0 1) (set 0 5 2 10004 -2147483648 1) (set 0 5 4 10004 0 1) (set 0 5 8 10004 -2147483648 1)", "regression-signed-zero-assignment", true);
+    add(Game::Th08, th08, "(ins 3 1005 241 0 1065353216) (ins 3 1005 242 -2147483648 1065353216) (ins 3 1005 252 0 1065353216)", "regression-signed-zero-th08", true);
+    add(Game::Th06, &[], "(ins 0 1006 1 1 2143289344) (ins 0 1006 2 2 2143289344) (ins 0 1006 4 3 2143289344) (ins 0 1006 8 4 2143289344)", "nan-column-is-constant", false);
+    add(Game::Th06, &[], "(cmp 0 27 1 1 10 0) (cmp 0 27 2 2 10 0) (cmp 0 27 4 3 10 0) (cmp 0 27 8 4 10 0)", "regression-unraisable", true);
+    add(Game::Th06, &[], "(cmp 5 28 1 1065353216 0 1) (cmp 5 28 2 1069547520 0 1) (cmp 5 28 12 1077936128 0 1) (jmp 5 2 255 0)", "regression-unraisable-float-labelled", true);
+    add(Game::Th06, th08, "(cmp 0 27 241 1 10 0) (cmp 0 27 242 2 10 0) (cmp 0 27 244 3 10 0) (cmp 0 27 248 4 10 0)", "regression-unraisable-aux", true);
     // shapes of the two seeded regressions
     add(Game::Th06, &[], "(ins 0 1001 3 1) (ins 0 1001 4 2) (ins 0 1001 8 3)", "contiguous-EN-H-L", true);
     add(Game::Th06, &[], "(ins 0 1001 9 1) (ins 0 1001 2 2) (ins 0 1001 4 3)", "first-mask-with-hole", true);
